@@ -6,7 +6,7 @@
      entry m i j: element (i,j) of the flat row-major dense matrix returned by convert *)
 From Coq Require Import List Arith Bool ZArith QArith Qcanon.
 Local Open Scope nat_scope.
-From OV Require Import Base.Panic Base.Arith Model.Vector Model.Matrix Model.Tridiag Inst.QcInst Proofs.Tridiag Proofs.TridiagSolve.
+From OV Require Import Base.Panic Base.Arith Model.Vector Model.Matrix Model.Tridiag Inst.QcInst Proofs.Tridiag Proofs.TridiagSolve Proofs.TridiagDet.
 Import ListNotations.
 
 (* ---- views: index, convert, transpose (every n >= 1, every entry value, any arithmetic) ---- *)
@@ -163,3 +163,41 @@ Check thomas_exact_or_refuses_Qc : forall (t : tridiag AQ) (r : list AQ),
      (forall k, k < tn t -> exists p, thomas_pivot t k = Ok p /\ p <> zero)) \/
   (tsolve t r = Panic Guard /\ exists k, k < tn t /\ thomas_pivot t k = Ok zero).
 Print Assumptions thomas_exact_or_refuses_Qc.
+
+(* ---- det: the three-term continuant recurrence, for every n >= 1 and ANY arithmetic (floats included) ----
+   Full statement planned in DESIGN (P3):  tdet t = Ok (\det of the dense twin)  (mathcomp).
+   Proved here: tdet t is the continuant K n of the three diagonals, K being pinned by its defining
+   equations below.  Gap: the Laplace-expansion identity  K n = \det(dense t)  (expansion along the last
+   row, then along the last column of the minor) is not re-proved in Coq; the search oracle compares det
+   with an independent elimination-based determinant of the dense twin on every generated Rat case. *)
+Theorem tridiag_det_is_det_partial : forall (A : Arith) (t : tridiag A), wfT t -> 1 <= tn t ->
+  tdet t = Ok (continuant t (tn t)) /\
+  continuant t 0 = one /\
+  continuant t 1 = (nth 0 (tmain t) zero * one)%A /\
+  forall k, continuant t (S (S k)) =
+    (nth (S k) (tmain t) zero * continuant t (S k) - nth k (tsub t) zero * nth k (tsup t) zero * continuant t k)%A.
+Proof. intros A t W Hn. split; [exact (tdet_continuant t W Hn)|]. repeat split. Qed.
+Check tridiag_det_is_det_partial : forall (A : Arith) (t : tridiag A), wfT t -> 1 <= tn t ->
+  tdet t = Ok (continuant t (tn t)) /\
+  continuant t 0 = one /\
+  continuant t 1 = (nth 0 (tmain t) zero * one)%A /\
+  forall k, continuant t (S (S k)) =
+    (nth (S k) (tmain t) zero * continuant t (S k) - nth k (tsub t) zero * nth k (tsup t) zero * continuant t k)%A.
+Print Assumptions tridiag_det_is_det_partial.
+
+(* over an exact field, det is the product of the Thomas pivots whenever elimination meets no zero pivot
+   (so det and solve describe one and the same elimination) *)
+Theorem tridiag_det_pivot_product : forall (A : Arith), FieldLaws A -> forall (t : tridiag A),
+  wfT t -> 1 <= tn t ->
+  (forall k, k < tn t -> exists p, thomas_pivot t k = Ok p /\ p <> zero) ->
+  tdet t = Ok (prod_n (tn t) (fun k => match thomas_pivot t k with Ok p => p | Panic _ => zero end)).
+Proof. intros A FL t. exact (tdet_pivots_lemma FL t). Qed.
+Check tridiag_det_pivot_product : forall (A : Arith), FieldLaws A -> forall (t : tridiag A),
+  wfT t -> 1 <= tn t ->
+  (forall k, k < tn t -> exists p, thomas_pivot t k = Ok p /\ p <> zero) ->
+  tdet t = Ok (prod_n (tn t) (fun k => match thomas_pivot t k with Ok p => p | Panic _ => zero end)).
+Print Assumptions tridiag_det_pivot_product.
+Example tridiag_det_pivot_product_nonvacuous :
+  wfT ex3 /\ 1 <= tn ex3 /\
+  forallb (fun k => match thomas_pivot ex3 k with Ok p => negb (Qc_eqb p (q 0 1)) | Panic _ => false end) (seq 0 (tn ex3)) = true.
+Proof. unfold wfT; cbn [tn tmain tsub tsup ex3 length]. repeat split; auto. Qed.
